@@ -355,7 +355,12 @@ func c09Child() {
 			order[i] = len(cases) - 1 - i
 		}
 	case 2:
+		// shuffled, but every case with the struct VALUE as sample environment before any other: in this process
+		// they are compiled before the pointer type has ever been seen
 		rand.New(rand.NewSource(*seed+77)).Shuffle(len(order), func(i, j int) { order[i], order[j] = order[j], order[i] })
+		sort.SliceStable(order, func(a, b int) bool {
+			return strings.HasPrefix(cases[order[a]].Opt, "typed-value") && !strings.HasPrefix(cases[order[b]].Opt, "typed-value")
+		})
 	}
 	for _, i := range order {
 		c := cases[i]
@@ -646,6 +651,6 @@ func runC09() {
 	for i := 0; i < 6 && i < len(cases); i++ {
 		rep.Samples = append(rep.Samples, cases[(i*7919+13)%len(cases)])
 	}
-	rep.Rule = "cases = (fixed sources covering every constant kind and every allocating opcode + a shuffled sample (quick) / all (thorough) of the exhaustive shape family + type-directed random expressions) x option sets {untyped, untyped+opt, typed, typed+opt on every source; AsInt64, AsBool, map environment, map environment + AllowUndefinedVariables, operator overloading + ConstExpr, the struct VALUE as sample environment with and without AllowUndefinedVariables on a rotating third and on every source that calls a method}; each compiled 5x in-process and once in each of 2 fresh processes that compile the cases in REVERSED and in SHUFFLED order (digest of Bytecode+Constants+Locations or the error text); every distinct program run on 5 (quick) / 8 (thorough) environments with deep structure (one with unsorted slices that have spare capacity, multi-entry maps, shared pointers), twice on the same value and once on an equal twin, with deep snapshots of environment, sample environment and program around every run; distinct_nontrivial = successfully compiled (source, option set) pairs + distinct (program, environment) pairs run"
+	rep.Rule = "cases = (fixed sources covering every constant kind and every allocating opcode + a shuffled sample (quick) / all (thorough) of the exhaustive shape family + type-directed random expressions) x option sets {untyped, untyped+opt, typed, typed+opt on every source; AsInt64, AsBool, map environment, map environment + AllowUndefinedVariables, operator overloading + ConstExpr, the struct VALUE as sample environment with and without AllowUndefinedVariables on a rotating third and on every source that calls a method}; each compiled 5x in-process and once in each of 2 fresh processes that compile the cases in REVERSED order and in SHUFFLED order with the value-environment cases first (digest of Bytecode+Constants+Locations or the error text); every distinct program run on 5 (quick) / 8 (thorough) environments with deep structure (one with unsorted slices that have spare capacity, multi-entry maps, shared pointers), twice on the same value and once on an equal twin, with deep snapshots of environment, sample environment and program around every run; distinct_nontrivial = successfully compiled (source, option set) pairs + distinct (program, environment) pairs run"
 	rep.write()
 }
